@@ -15,14 +15,17 @@
      unchanged ("true booleans stay true"), items with times truncated to the centisecond, absent margins/layer as 0,
      the speaker name the writer chose on every line, lines and runs unchanged -- and writing what was read gives
      the same bytes again (C04_rewrite);
-   * junk lines, unknown sections and non-Dialogue events are ignored; reader and writer never panic; style names
-     with a leading '*' resolve (see below).
+   * reading: for every order of the script-info keys, every spelling of the section names, every pair of Format
+     lines and every admissible cell encoding, a rendered document is read as the script info, styles and items it
+     denotes (C04_read_rendered; sections in the order script info, styles, events);
+   * junk lines, unknown sections and non-Dialogue events are ignored; LF / CR LF / CR and the byte-order mark; reader
+     and writer never panic; style names with a leading '*' resolve; the bytes do not depend on the map order.
    Faithful domain of the model: floats that are k/1000 with |k| < 10^15 (other ParseFloat inputs are answered
    Err EOther and compared by result class only), ints in Go's int range, colour components < 256. *)
 From Coq Require Import List ZArith NArith Bool.
 From Astisub Require Import Kit.Base Kit.Str Kit.Scan Model.Dur Model.Ssa.
 From Coq Require Import Permutation.
-From Astisub Require Import Proofs.EolProofs Proofs.SsaFields Proofs.SsaText Proofs.SsaRows Proofs.SsaDoc Proofs.SsaInfo Proofs.SsaIgnore Proofs.SsaOrder Proofs.SsaRepr Proofs.SsaRead.
+From Astisub Require Import Proofs.EolProofs Proofs.SsaFields Proofs.SsaText Proofs.SsaRows Proofs.SsaDoc Proofs.SsaInfo Proofs.SsaInfoOrder Proofs.SsaIgnore Proofs.SsaOrder Proofs.SsaRepr Proofs.SsaRead.
 Import ListNotations.
 
 (* ---- field codecs ---- *)
@@ -135,13 +138,13 @@ Example C04_example : doc_repr ex_doc.
 Proof. exact ex_doc_repr. Qed.
 
 (* ---- reading rendered documents ---- *)
-(* every spelling of the section names, every pair of Format lines (columns in any order, any subset, unknown names,
+(* every order (and repetition) of the script info keys, every spelling of the section names, every pair of Format lines (columns in any order, any subset, unknown names,
    any spacing around the commas), every admissible encoding of every cell: the reader returns the script info, the
    styles and, for every Dialogue row, the item its event denotes (text splitting: C04_text_lines, C04_runs; style
    look-up: C04_star_style).  Blank / junk lines, unknown sections, other event kinds, line endings and the byte-order
    mark compose with this statement through the theorems below. *)
-Theorem C04_read_rendered : forall hi b styles he fe erows scols ecols e,
-  section_hdr true hi SInfo -> info_ok b ->
+Theorem C04_read_rendered : forall hi b keys styles he fe erows scols ecols e,
+  section_hdr true hi SInfo -> info_ok b -> (forall f, In f keys) ->
   match styles with
   | Some (hs, fs, srows) => section_hdr false hs SStyles /\ format_value fs scols /\ scols <> [] /\
                             Forall (fun p : list str * astyle => style_row scols (fst p) (snd p)) srows
@@ -150,7 +153,7 @@ Theorem C04_read_rendered : forall hi b styles he fe erows scols ecols e,
   section_hdr false he SEvents -> format_value fe ecols -> ecols <> [] ->
   Forall (fun p : (list str * str) * aevent => event_row ecols (fst (fst p)) (snd (fst p)) (snd p)) erows ->
   let sts := match styles with Some (_, _, srows) => map snd srows | None => [] end in
-  read_ssa_lines (rendered_lines hi b styles he fe erows) e =
+  read_ssa_lines (rendered_lines hi b keys styles he fe erows) e =
   if e then Err EIO
   else Ok (mkAdoc (Some b) (styles_map sts) (map (fun ev => event_item ev (styles_map sts)) (map snd erows))).
 Proof. exact read_rendered. Qed.
